@@ -1,6 +1,7 @@
 package ext4
 
 import (
+	"bytes"
 	"io"
 
 	"github.com/diskfs/go-diskfs/internal/vp"
@@ -80,19 +81,9 @@ func c10ExtRead(bs uint32, nExt, N int, counts []uint16) {
 	fl, exts, _ := c10ExtFile(dev, bs, nExt, 1<<40, counts)
 	size := int64(fl.size)
 	off := fl.offset
-	// KF-C10-3: the read starts inside the block that follows the last block of an extent
-	// (not at its first byte): Read does not skip that extent and computes a negative length.
-	kf3 := false
-	if off < size {
-		if uint64(off)%uint64(bs) != 0 {
-			for i := 0; i < nExt-1; i++ {
-				if uint64(exts[i].fileBlock)+uint64(exts[i].count) == uint64(off)/uint64(bs) {
-					kf3 = true
-				}
-			}
-		}
-	}
-	_ = kf3
+	// KF-C10-3 (attributed through KnownPanic below): the read starts inside the block that
+	// follows the last block of an extent (not at that block's first byte): Read does not skip
+	// that extent, computes a negative length and panics in make().
 
 	buf := vp.Bytes("buf", N)
 	orig := make([]byte, N)
@@ -322,4 +313,76 @@ func VP_C10_ext4_closed() {
 		vp.Cover("read after close fails with an error")
 	}
 	vp.Cover("read after close returns")
+}
+
+// VP_C10_ext4_sequence_vs_bytes_reader: the executable specification itself on a file of two
+// one-block extents (4-byte blocks, 0..8 bytes): Seek(arbitrary offset, whence) and two Reads of
+// arbitrary length 0..5 on the ext4 handle and on a bytes.Reader over the file's content.
+func VP_C10_ext4_sequence_vs_bytes_reader() {
+	const M, K = 8, 5
+	m := vpdev.NewMemDev("disk", -1)
+	m.NoWrites = true
+	dev := &c10LaneDev4{MemDev: m}
+	fl, exts, _ := c10ExtFile(dev, 4, 2, 1<<40, []uint16{1, 1})
+	fl.offset = 0
+	size := int64(fl.size)
+	content := make([]byte, M)
+	for i := range content {
+		content[i] = dev.ByteAt(c10ExtPos(exts, 4, int64(i)))
+	}
+	ref := bytes.NewReader(content[:size])
+
+	so := vp.I64("seekoff")
+	wh := vp.Int("whence")
+	vp.Assume(wh >= 0)
+	vp.Assume(wh <= 2)
+	vp.NoPanic()
+	p1, e1 := fl.Seek(so, wh)
+	vp.AllowPanic()
+	p2, e2 := ref.Seek(so, wh)
+	if e2 != nil {
+		vp.Assert(e1 != nil, "Seek fails where bytes.Reader.Seek fails")
+		vp.Cover("both seeks rejected")
+	} else {
+		vp.Assert(e1 == nil, "Seek succeeds where bytes.Reader.Seek succeeds")
+		vp.Assert(p1 == p2, "Seek returns what bytes.Reader.Seek returns")
+	}
+	vp.AllocCap(8)
+	for step := 0; step < 2; step++ {
+		k := vp.Int("len" + string(rune('0'+step)))
+		vp.Assume(k >= 0)
+		vp.Assume(k <= K)
+		b1 := make([]byte, K)
+		b2 := make([]byte, K)
+		vp.Unwind(4)
+		vp.NoPanic()
+		vp.KnownPanic("KF-C10-3", "ext4/file.go:73")
+		n1, r1 := fl.Read(b1[:k])
+		vp.AllowPanic()
+		vp.Unwind(16)
+		n2, r2 := ref.Read(b2[:k])
+		vp.Assert(n1 == n2, "Read returns as many bytes as bytes.Reader.Read")
+		for i := 0; i < K; i++ {
+			vp.Assert(b1[i] == b2[i], "Read delivers the bytes bytes.Reader.Read delivers")
+		}
+		c1, _ := fl.Seek(0, io.SeekCurrent)
+		c2, _ := ref.Seek(0, io.SeekCurrent)
+		vp.Assert(c1 == c2, "cursor where bytes.Reader has it")
+		if r2 == io.EOF {
+			if k > 0 {
+				vp.Assert(r1 == io.EOF, "io.EOF where bytes.Reader reports it")
+				vp.Cover("both report EOF")
+			}
+		}
+		if r1 == io.EOF {
+			vp.Assert(c1 >= size, "io.EOF only at the end")
+		} else if k > 0 {
+			vp.Assert(r1 == nil, "no other error")
+		}
+		if n1 > 0 {
+			if step == 1 {
+				vp.Cover("second read delivers bytes")
+			}
+		}
+	}
 }
